@@ -59,7 +59,10 @@ def requirements(tier):
             'emitter_transitions_distinct_x16': 16 * 17,
             'roundtrip_loads': 20000 if q else 200000,
             'string_cases': 5000 if q else 50000,
-            'model_values': 0}
+            'model_values': 5000 if q else 80000,
+            'model_class_values': 2000 if q else 30000,
+            'model_roundtrip_loads': 1500 if q else 20000,
+            'aborted_dumps': 600 if q else 8000}
 
 
 INDENTS = [None, 0, 1, 2, 3, 4, 5, 6, 7, 8]
@@ -363,6 +366,60 @@ def run_plain(ctx, env, value, indent, ensure_ascii, origin):
                     'text': text[:300]}, origin)
 
 
+class _Boom(Exception):
+    pass
+
+
+class _FailingSink:
+    """Text sink whose k-th write raises."""
+
+    def __init__(self, k):
+        self.k = k
+
+    def write(self, s):
+        self.k -= 1
+        if self.k <= 0:
+            raise _Boom('sink refuses')
+
+
+_abort_env = {}
+
+
+def abort_dump(ctx, env, rng):
+    """A JSON dump that is abandoned half-way (the statement quantifies
+    over every call, whatever happened before it): a value that contains the
+    same list twice (documented RuntimeError for aliases) or a sink whose
+    write() raises.  What the aborted call does is not judged; the regular
+    cases that follow are."""
+    ctx.count('aborted_dumps')
+    nbroken = len(HOOK.broken)
+    if rng.random() < 0.5:
+        shared = [1, {'k': 'v'}]
+        v = rng.choice([[shared, shared], {'a': shared, 'b': [shared]},
+                        [[0, shared], {'x': {'y': shared}}]])
+        try:
+            env.dumps(v, indent=rng.choice(INDENTS))
+            ctx.count('aborted_dump_did_not_raise')
+        except Exception:
+            pass
+    else:
+        if 'dump' not in _abort_env:
+            _abort_env['dump'] = yatiml.dump_json_function()
+        v = {'a': [1, 2, {'b': [3, 4]}], 'c': {'d': 'e'}}
+        try:
+            _abort_env['dump'](v, _FailingSink(rng.randint(1, 12)),
+                               indent=rng.choice(INDENTS))
+        except _Boom:
+            pass
+        except Exception:
+            ctx.count('aborted_dump_other_exception')
+    # violations of the emitter invariant inside the aborted call itself are
+    # expected (it never reaches the document end): discard them
+    del HOOK.broken[nbroken:]
+    run_plain(ctx, env, [1, {'a': [2, 'x']}, []], rng.choice(INDENTS),
+              rng.random() < 0.5, 'after-abort')
+
+
 def report_hook(ctx, nbroken, case):
     for reason, detail in HOOK.broken[nbroken:]:
         ctx.violation('C07 emitter-invariant ' + reason, detail, case)
@@ -446,6 +503,8 @@ def shard(ctx):
             classes=('look', 'uni', 'json', 'sur'), finite=True, dates=True)
         indent, asc = ctx.rng.choice(CONFIGS)
         ctx.count('string_cases')
+        if ctx.rng.random() < 0.03:
+            abort_dump(ctx, env, ctx.rng)
         run_plain(ctx, env, value, indent, asc, 'random')
     # class-model values
     try:
@@ -453,7 +512,7 @@ def shard(ctx):
     except ImportError:
         c07_models = None
     if c07_models is not None:
-        c07_models.shard(ctx, check_text, report_hook, HOOK)
+        c07_models.shard(ctx, check_text, report_hook, HOOK, CONFIGS)
     ctx.count('emitter_events', HOOK.events)
     # distinct transitions are merged by max over shards via a x16 trick:
     # each shard reports its own count; the requirement divides by shards
